@@ -589,6 +589,71 @@ def cross_app_rename_probe(ctx):
                     break
 
 
+def dbstate_correspondence(ctx):
+    """random sequences of bookkeeping calls (add_table, add_index, remove_index, get_index, find_index,
+    clear_indexes, iter_indexes, has_table; tracked and untracked tables, ordinary and unique indexes, names and column
+    lists that repeat) on the real DatabaseState against the Lean model Sql/DbState.lean: every answer, every
+    DatabaseStateError, the final contents"""
+    import random
+    from django_evolution.db.state import DatabaseState
+    from django_evolution.errors import DatabaseStateError
+    rng = random.Random(ctx.seed * 389 + 11)
+    n = 150 if ctx.tier == 'quick' else 3000
+    tables, names = ['vapp_a', 'vapp_b', 'wapp_c'], ['ix1', 'ix2', 'ix3', 'uq1']
+    colsets = [['a'], ['b'], ['a', 'b'], ['b', 'a']]
+    reqs, reals, cases = [], [], []
+    for _ in range(n):
+        st = DatabaseState('default', scan=False)
+        ops, res = [], []
+        for _ in range(rng.randint(3, 14)):
+            k = rng.choice(['add_table', 'add_index', 'add_index', 'add_index', 'remove_index', 'remove_index',
+                            'get_index', 'find_index', 'find_index', 'clear', 'iter', 'has_table'])
+            t = rng.choice(tables)
+            o = {'k': k, 't': t}
+            ix = lambda i: None if i is None else [i.name, list(i.columns), bool(i.unique)]
+            try:
+                if k == 'add_table':
+                    st.add_table(t)
+                    r = 'ok'
+                elif k == 'has_table':
+                    r = bool(st.has_table(t))
+                elif k == 'clear':
+                    st.clear_indexes(t)
+                    r = 'ok'
+                elif k == 'iter':
+                    r = [ix(i) for i in st.iter_indexes(t)]
+                elif k == 'add_index':
+                    o.update(name=rng.choice(names), cols=rng.choice(colsets), unique=rng.random() < 0.4)
+                    st.add_index(t, o['name'], list(o['cols']), unique=o['unique'])
+                    r = 'ok'
+                elif k == 'remove_index':
+                    o.update(name=rng.choice(names), unique=rng.random() < 0.4)
+                    st.remove_index(t, o['name'], unique=o['unique'])
+                    r = 'ok'
+                elif k == 'get_index':
+                    o.update(name=rng.choice(names), unique=rng.random() < 0.4)
+                    r = ix(st.get_index(t, o['name'], unique=o['unique']))
+                else:
+                    o.update(cols=rng.choice(colsets), unique=rng.random() < 0.4)
+                    r = ix(st.find_index(t, list(o['cols']), unique=o['unique']))
+            except DatabaseStateError as e:
+                msg = str(e)
+                r = 'untracked' if 'not being tracked' in msg else 'exists' if 'already exists' in msg else \
+                    'not-found' if 'could not be found' in msg else 'error: ' + msg[:60]
+            ops.append(o)
+            res.append(r)
+            ctx.count('dbstate:%s' % k)
+        final = [[t, [i.name for i in st.iter_indexes(t) if not i.unique], [i.name for i in st.iter_indexes(t) if i.unique]]
+                 for t in tables if st.has_table(t)]
+        cases.append(ops)
+        reals.append({'results': res, 'final': sorted(final)})
+        reqs.append({'op': 'dbstate', 'ops': ops})
+    outs = ctx.driver.ask(reqs) if ctx.driver else []
+    for ops, real, out in zip(cases, reals, outs):
+        model = {'results': out.get('results'), 'final': sorted(out.get('final') or [])} if out else None
+        ctx.corr_case('database_state', model == real, case={'ops': ops}, model=model, impl=real)
+
+
 def run(ctx):
     evorig.setup()
     quick = ctx.tier == 'quick'
@@ -598,6 +663,7 @@ def run(ctx):
                 'from the target models, executed one at a time and batched on SQLite with the index bookkeeping '
                 'scanned from the database; non-trivial = the run executed at least one statement')
     cross_app_rename_probe(ctx)
+    dbstate_correspondence(ctx)
     n = 480 if quick else 6000
     found = {}
     schema_reqs, schema_pend = [], []
